@@ -25,7 +25,7 @@ func init() {
 		ID: "C16",
 		Explanation: "Decides the critical-section shape of reference updates, not linearizability: (no-mutation-before-lock) in every dotgit function that takes a billy.Locker lock on a file, the file is not opened with O_TRUNC and " +
 			"no Write/Truncate on it is reachable before the lock (paths on which the filesystem offers no Locker are excluded); (cas-critical-section) in setRefRwfs the compare (checkReferenceAndTruncate) and the write happen after the lock with " +
-			"no Unlock/Close in between, the lock is released only by the deferred Close, and checkReferenceAndTruncate truncates only on the hash-equal edge and returns ErrReferenceHasChanged otherwise; " +
+			"no Unlock/Close in between, no reference value (loose or packed) is read before the lock and the compare takes no pre-fetched value, the lock is released only by the deferred Close, and checkReferenceAndTruncate truncates only on the hash-equal edge and returns ErrReferenceHasChanged otherwise; " +
 			"(publish-by-rename) reference content is replaced only by renaming a completely written file — today it is rewritten in place, which is recorded as a known finding; (empty-loose-ref-agreement) every function that reads a loose reference file other than HEAD either tests for ErrEmptyRefFile or never returns the read's error: the empty file is the placeholder a " +
 			"compare-and-set creates before comparing and leaves behind when it refuses. Not decided: interleavings, flock semantics across processes.",
 		Assumptions: []string{"billy.Locker.Lock is an exclusive advisory lock honoured by every writer"},
@@ -551,6 +551,32 @@ func runC16(c *Ctx) {
 			sel, ok := unparen(call.Fun).(*ast.SelectorExpr)
 			return ok && sel.Sel.Name == "Write"
 		}, "a successful compare/truncate")
+		// no-read-before-lock: everything the compare looks at is read inside the critical section: no call that reads
+		// a reference (loose or packed) is reachable in setRefRwfs before the lock is taken, and the compare receives no
+		// pre-fetched reference (its only *plumbing.Reference argument is the caller's expected value)
+		readsRef := CallNode(false, func(call *ast.CallExpr) bool {
+			fn := Callee(info, call)
+			if fn == nil {
+				return false
+			}
+			switch fn.Name() {
+			case "packedRef", "Ref", "readReferenceFile", "readReferenceFrom", "findPackedRefs", "Refs":
+				return recvTypeName(fn) != nil && recvTypeName(fn).Name() == "DotGit"
+			}
+			return false
+		})
+		h := f.Search(SearchOpts{Starts: []Loc{f.Entry()}, Sink: readsRef, Barrier: lock})
+		c.Check(h == nil, r2, sr.Name()+":no-read-before-lock", sr.Decl.Pos(), orStr(ifStr(h != nil, "a reference value is read before the lock is held: a concurrent PackRefs or update can change it before the compare, which then accepts a stale expectation"+hitLines(f, h)),
+			"no reference value is read before the lock is held"))
+		if ct := p.Func(dotgitShort + ".(*DotGit).checkReferenceAndTruncate"); ct != nil {
+			nRefParams := 0
+			for _, pv := range paramObjs(info, ct.Decl) {
+				if strings.HasSuffix(pv.Type().String(), "plumbing.Reference") {
+					nRefParams++
+				}
+			}
+			c.Check(nRefParams == 1, r2, ct.Name()+":no-prefetched-value", ct.Decl.Pos(), "the compare takes the expected value only; the current value is read inside it, under the caller's lock")
+		}
 	}
 	if ct := c.MustFunc(r2, dotgitShort+".(*DotGit).checkReferenceAndTruncate"); ct != nil {
 		changed := p.lookupObj("storage", "ErrReferenceHasChanged")
